@@ -130,10 +130,14 @@ Proof.
   intros k b. unfold ex_E, xorl. rewrite firstn_length, map_length, combine_length, !app_length, !repeat_length. lia.
 Qed.
 
+Definition ex_run : res (list enc_sample) :=
+  encrypt_samples_cenc ex_E (protect_ranges avc_is_video (fun _ => Err) Cenc) (repeat 7 16) (repeat 255 16)
+    [frames ex_nalus; frames ex_nalus].
+
 Example ex_fragment :
-  exists encs,
-    encrypt_samples_cenc ex_E (protect_ranges avc_is_video (fun _ => Err) Cenc) (repeat 7 16) (repeat 255 16)
-      [frames ex_nalus; frames ex_nalus] = Ok encs /\
-    map e_iv encs = [repeat 255 16; repeat 0 15 ++ [2]] /\
-    sumN (map blocks_of encs) < 2 ^ 128.
-Proof. eexists. vm_compute. split; [reflexivity|]. split; reflexivity. Qed.
+  match ex_run with
+  | Ok encs => map e_iv encs = [repeat 255 16; repeat 0 15 ++ [2]] /\
+               N.ltb (sumN (map blocks_of encs)) (2 ^ 128) = true
+  | _ => False
+  end.
+Proof. vm_compute. split; reflexivity. Qed.
